@@ -214,7 +214,29 @@ func TestC12(t *testing.T) {
 	counters := []string{"0", "1", "-1", "41", strconv.FormatInt(math.MaxInt64, 10), strconv.FormatInt(math.MaxInt64-1, 10), strconv.FormatInt(math.MinInt64, 10), strconv.FormatInt(math.MinInt64+1, 10), "abc", "", "1.5", " 1"}
 	deltas := []string{"1", "-1", "5", "0", strconv.FormatInt(math.MaxInt64, 10), strconv.FormatInt(math.MinInt64, 10), "1000000"}
 	zscores := []string{"1", "2", "2.5", "-1", "0", "3", "1e3", "-inf", "+inf"}
-	cfgNames := []string{"verif-a", "verif-b", "verif c", "Verif-Mixed", "VERIF-UP"}
+	cfgNames := []string{"verif-a", "verif-b", "verif c", "Verif-Mixed", "VERIF-UP", "port", "tls-port", "timeout", "maxclients", "databases"}
+
+	// CONFIG SET / GET on a small pool of parameter names (the server's own well-known ones included): what was set is what is read
+	h.Rapid("config", h.N(2000, 60000), func(rt *rapid.T) {
+		names := []string{"verif-a", "Verif-Mixed", "port", "tls-port", "timeout", "maxclients", "requirepass-x", "databases", "tls-cert-file", "dir"}
+		values := []string{"", "a", "off", "0", "7", "-1", "6380", "x y", "1.5", "99999999999999999999"}
+		p := progCase{}
+		for i, n := 0, rapid.IntRange(2, 8).Draw(rt, "n"); i < n; i++ {
+			var c []string
+			if rapid.Bool().Draw(rt, "set") {
+				c = []string{"CONFIG", "SET", rapid.SampledFrom(names[:4+rapid.IntRange(0, 6).Draw(rt, "pool")]).Draw(rt, "name"), rapid.SampledFrom(values).Draw(rt, "value")}
+			} else {
+				c = []string{"CONFIG", "GET", rapid.SampledFrom(names[:4+rapid.IntRange(0, 6).Draw(rt, "pool")]).Draw(rt, "name")}
+			}
+			if rapid.IntRange(0, 3).Draw(rt, "lower") == 0 {
+				c[0], c[1] = "config", strings.ToLower(c[1])
+			}
+			p.Cmds = append(p.Cmds, cmd(c...))
+		}
+		data, _ := encodeReqs(p.Cmds)
+		h.Col.Case(true, append([]byte("config\x00"), data...), "derived:CONFIG", "config-programs")
+		h.Fail(rt, "c12.prog", p, evalC12(p))
+	})
 
 	h.Rapid("programs", h.N(10000, 600000), func(rt *rapid.T) {
 		pick := func(label string, pool []string) string { return rapid.SampledFrom(pool).Draw(rt, label) }
@@ -357,6 +379,21 @@ func TestC12(t *testing.T) {
 						written[c[j]] = true
 					}
 				}
+			}
+			// command names are matched case-insensitively: the spelling must not change the answer
+			switch rapid.IntRange(0, 5).Draw(rt, "spelling") {
+			case 0:
+				c[0] = strings.ToLower(c[0])
+			case 1:
+				c[0] = c[0][:1] + strings.ToLower(c[0][1:])
+			case 2:
+				b := []byte(strings.ToLower(c[0]))
+				for j := range b {
+					if j%2 == 1 {
+						b[j] = c[0][j]
+					}
+				}
+				c[0] = string(b)
 			}
 			p.Cmds = append(p.Cmds, cmd(c...))
 		}
